@@ -318,6 +318,13 @@ func (x *X) evalCall(env *Env, e *ast.CallExpr) TV {
 			case MapV:
 				return TV{S{x.mapLen(a.T.Underlying().(*types.Map), v.Ref), SInt}, types.Typ[types.Int]}
 			}
+		case "fst", "snd":
+			a := x.eval(env, e.Args[0])
+			i := 0
+			if id.Name == "snd" {
+				i = 1
+			}
+			return TV{a.V.(Tup).E[i], a.T.(*types.Tuple).At(i).Type()}
 		case "cap":
 			a := x.eval(env, e.Args[0])
 			return TV{S{a.V.(Slice).Cap, SInt}, types.Typ[types.Int]}
@@ -438,7 +445,10 @@ func (x *X) evalFuncCall(env *Env, fn *ssa.Function, recv *TV, argExprs []ast.Ex
 		args = append(args, a.V)
 	}
 	x.noOblig++
+	save := x.st
+	x.st = save.clone()
 	r := x.callStatic(fn, args, nil, nil)
+	x.st = save
 	x.noOblig--
 	return TV{r, resultType(sig)}
 }
